@@ -65,8 +65,65 @@ def instances(rng):
 
 def one_case(ctx: Ctx, stream: str, i: int) -> None:
     rng = ctx.rng(stream, i)
-    for op in instances(rng):
+    probe_ops(ctx, stream, i, instances(rng))
+
+
+def composites(rng):
+    """composite operators as a user writes them: sandwiches around a symmetric centre with the very same outer
+    object transposed / inverted (lazily or in closed form), arithmetic on symmetric operands, random expressions and
+    their reductions — a composite may be tagged only if the tag holds for every choice of its parts"""
+    from furax._base.blocks import BlockDiagonalOperator
+    from furax._base.core import InverseOperator, TransposeOperator
+    n = rng.choice([2, 3, 4])
+    s = gen.S(n)
+    out = []
+    sym = [gen.mk_toeplitz(rng, s, spd=True), gen.mk_diagonal(rng, s), gen.mk_homothety(rng, s)]
+    outer = [gen.mk_diagonal(rng, s), gen.mk_dense(rng, s, square=True), gen.mk_toeplitz(rng, s, spd=True),
+             gen.mk_obs_matrix(rng, s), gen.mk_index(rng, s)]
+    for _ in range(4):
+        c = rng.choice(sym)
+        x = rng.choice([o for o in outer if o is not None])
+        duals = [lambda: x.T, lambda: TransposeOperator(x)]
+        if gen.same_structure(x.in_structure(), x.out_structure()):
+            duals += [lambda: x.I, lambda: InverseOperator(x)]
+        mk = rng.choice(duals)
+        st, dual = safe(mk)
+        if st != 'ok':
+            continue
+        for build in (lambda: dual @ c @ x, lambda: x @ c @ dual, lambda: dual @ x, lambda: x @ dual,
+                      lambda: (dual @ c @ x).reduce()):
+            st2, e = safe(build)
+            if st2 == 'ok':
+                out.append(e)
+    a, b = rng.choice(sym), rng.choice(sym)
+    for build in (lambda: a @ b, lambda: a + b, lambda: a - b, lambda: 2.0 * a, lambda: -a, lambda: a @ a,
+                  lambda: (a @ b).reduce(), lambda: (a + b).reduce(), lambda: BlockDiagonalOperator([a, b]),
+                  lambda: BlockDiagonalOperator({'y': a, 'x': gen.mk_dense(rng, s, square=True)}), lambda: a.T, lambda: a.I,
+                  lambda: (a @ b).T, lambda: (a + b).T):
+        st2, e = safe(build)
+        if st2 == 'ok':
+            out.append(e)
+    for _ in range(3):
+        st2, e = safe(gen.gen_expression, rng, 4, 2)
+        if st2 == 'ok':
+            e = e[0] if isinstance(e, tuple) else e
+            out.append(e)
+            st3, r = safe(e.reduce)
+            if st3 == 'ok':
+                out.append(r)
+    return out
+
+
+def composite_case(ctx: Ctx, stream: str, i: int) -> None:
+    rng = ctx.rng(stream, i)
+    probe_ops(ctx, stream, i, composites(rng), composite=True)
+
+
+def probe_ops(ctx: Ctx, stream: str, i: int, ops, composite: bool = False) -> None:
+    for op in ops:
         name = type(op).__name__
+        if composite:
+            name = 'composite:' + name
         st, m = safe(gen.dense, op)
         if st != 'ok':
             ctx.fail(stream, i, f'tag-probe-raises:{name}:{st}', str(m)[:120], {})
@@ -83,6 +140,11 @@ def one_case(ctx: Ctx, stream: str, i: int) -> None:
             ctx.case(f'{name}:{tag}:{m.tolist()}', bool(declared), sample={'class': name, 'tag': tag, 'declared': bool(declared)})
             if declared:
                 ctx.count(f'true:{name}:{tag}')
+        # whatever the tags say: an operator whose transpose is the operator itself must have a symmetric matrix
+        stT, opT = safe(lambda: op.T)
+        if stT == 'ok' and opT is op and not (square and TAGS['is_symmetric'](m)):
+            ctx.fail(stream, i, f'self-transpose-not-symmetric:{name}', f'{name}: A.T is A but the dense matrix is not '
+                     f'symmetric: {m.tolist()}', {'class': name})
         # decorators of the library itself
         if lx.is_symmetric(op):
             if op.T is not op:
@@ -147,3 +209,6 @@ def run(ctx: Ctx) -> None:
     for i in range(8 if ctx.tier == 'quick' else 120):
         if ctx.want('probe', i):
             one_case(ctx, 'probe', i)
+    for i in range(16 if ctx.tier == 'quick' else 200):
+        if ctx.want('composite', i):
+            composite_case(ctx, 'composite', i)
